@@ -35,6 +35,11 @@ pub fn compute_digest(challenge: u32, cookie: &str) -> [u8; 16] {
 }
 
 pub fn generate_challenge() -> u32 {
+    #[cfg(edp_verif)]
+    if let Some(challenge) = crate::verif::challenge_override() {
+        return challenge;
+    }
+
     let nanos = SystemTime::now()
         .duration_since(UNIX_EPOCH)
         .unwrap_or_else(|_| Duration::from_secs(0))
